@@ -128,6 +128,13 @@ impl PointsIter for Circle {
 
 impl ContainsPoint for Circle {
     fn contains(&self, point: Point) -> bool {
+        // No point outside of the bounding box is inside the circle. Rejecting these points first
+        // keeps the squared distance below within the range of `i32` for points far away from the
+        // circle.
+        if !self.bounding_box().contains(point) {
+            return false;
+        }
+
         let delta = self.center_2x() - point * 2;
         let distance = delta.length_squared() as u32;
 
